@@ -748,7 +748,7 @@ M("c08-compare-joined-by-or", "C08", ["C08.build"],
 M("c08-syntaxerror-not-converted", "C08", ["C08.when"],
   E(DISP, """        try:
             expression = parse_boolean_expr(spec.func, take_callback_partial, operator_mapping)
-        except SyntaxError as err:
+        except (SyntaxError, UnsupportedExpression) as err:
             raise InvalidDefinition(
                 _("Failed to parse boolean expression '{}'").format(spec.func)
             ) from err
@@ -991,6 +991,18 @@ M("c12-resolve-stops-after-first-builder", "C12", ["C12.allproviders"],
                 break
 """))
 
+M("c18-f34-reintroduced", ["C18"], ["C18.initial"],
+  E(DIA, '    initial_node_id = ".initial"', '    initial_node_id = "i"'))
+M("c08-f33-reintroduced", ["C08"], ["C08.when"],
+  E(DISP, "        except (SyntaxError, UnsupportedExpression) as err:", "        except SyntaxError as err:"))
+M("c08-compare-lookup-unguarded", ["C08"], ["C08.when"],
+  E(SP, """            operator_fn = operator_mapping.get(type(right_op))
+            if operator_fn is None:
+                raise UnsupportedExpression(
+                    f"Unsupported expression structure: {right_op.__class__.__name__}"
+                )
+""", """            operator_fn = operator_mapping[type(right_op)]
+"""))
 M("c08-f31-reintroduced", ["C08"], ["C08.identity"],
   E(SP, "    decorated.unique_key = repr(constant)  # type: ignore[attr-defined]", "    decorated.unique_key = str(constant)  # type: ignore[attr-defined]"))
 M("c07-f32-reintroduced", ["C07", "C16"], ["C07.cachekey", "C16.cachekey"],
